@@ -1,5 +1,5 @@
 (** C01 — escrow is exactly backed: holdings equal recorded obligations. *)
-From FM Require Import Backed Reentrant CallSeqLedger.
+From FM Require Import Backed Reentrant ReentrantDeep CallSeqLedger.
 
 (** [fresh w]: a freshly instantiated marketplace that holds nothing, next to an empty
     registry; everything else — user balances, token ledgers, NFT owners, admins, start time —
@@ -114,6 +114,43 @@ Theorem C01_reentry_conservative : forall w o, rstep w o [] = step w o.
 Proof. exact rstep_no_program. Qed.
 Print Assumptions C01_reentry_conservative.
 
+(** *** Re-entrancy nested to any depth (model/ReentryDeep.v, proofs/ReentrantDeep.v)
+
+    [gstep k w o] is the transaction [o] during which the hostile contract reacts to the first
+    transfer it is handed by [k].  [behaviour] is the closure of: nothing; one reaction after another;
+    a marketplace call by an outsider during which the hostile contract again reacts with a
+    behaviour.  A nested call may therefore itself be re-entered, without bound on depth or width. *)
+Theorem C01_deep_reentrant_transaction_preserves_backing : forall w o k,
+  good w -> outside_ok w o -> behaviour (kind w) (self_addr w) k -> good (fst (gstep k w o)).
+Proof. exact gstep_good. Qed.
+Print Assumptions C01_deep_reentrant_transaction_preserves_backing.
+
+(** Any behaviour conserves holdings - obligations, whatever is in flight around it. *)
+Theorem C01_behaviours_conserve_surplus : forall K self k, behaviour K self k ->
+  forall e w, kind w = K -> self_addr w = self -> sound w -> surplus e w ->
+    sound (k w) /\ surplus e (k w) /\ kind (k w) = K /\ self_addr (k w) = self /\ pool_addr (k w) = pool_addr w.
+Proof. exact behaviour_conservative. Qed.
+Print Assumptions C01_behaviours_conserve_surplus.
+
+Theorem C01_escrow_backed_with_deep_reentry : forall w tx,
+  fresh w ->
+  Forall (fun t => outside_ok w (fst t) /\ behaviour (kind w) (self_addr w) (snd t)) tx ->
+  backed (grun w tx).
+Proof. exact escrow_backed_with_deep_reentry. Qed.
+Print Assumptions C01_escrow_backed_with_deep_reentry.
+
+(** Executable form: programs as trees ([tstep], [trun]). *)
+Theorem C01_escrow_backed_with_tree_programs : forall w txs,
+  fresh w -> trees_ok (kind w) (self_addr w) txs -> backed (trun w txs).
+Proof. exact escrow_backed_with_tree_programs. Qed.
+Print Assumptions C01_escrow_backed_with_tree_programs.
+
+(** The flat rule (the one executed against the implementation) is the instance whose nested
+    calls are not re-entered again. *)
+Theorem C01_deep_reentry_conservative : forall w o prog, gstep (fun w1 => run w1 prog) w o = rstep w o prog.
+Proof. exact gstep_run_is_rstep. Qed.
+Print Assumptions C01_deep_reentry_conservative.
+
 (** Contract-level, under every interleaving (proofs/CallSeqLedger.v): along any sequence of
     successful marketplace calls — any senders, order or nesting — with [deposited] / [sent_out]
     the totals of asset [x] that the calls deposited and their responses sent. *)
@@ -156,6 +193,40 @@ Proof.
            | |- _ <> _ => discriminate
            | |- _ -> False => discriminate
            | |- True => exact I
+           end. }
+  cbv zeta. splits; vm_compute; reflexivity.
+Qed.
+
+
+(** Non-vacuity at depth two: the hostile contract 70 owns bucket 1 (100 coins + 5 of its "tokens")
+    and bucket 2 (50 coins + 3 "tokens").  It withdraws bucket 1; handed the token transfer it
+    withdraws bucket 2; handed *that* token transfer it opens bucket 4 with 490 coins — which it can
+    only afford because both payouts have just arrived. *)
+Definition txdeep : list rop :=
+  [RNode (Exec 70 [(0, 100)] (CreateBucket 1) None) [];
+   RNode (Exec 70 [] (Receive 70 5 (Some (AddToBucketCw20 1))) None) [];
+   RNode (Exec 70 [(0, 50)] (CreateBucket 2) None) [];
+   RNode (Exec 70 [] (Receive 70 3 (Some (AddToBucketCw20 2))) None) [];
+   RNode (Exec 70 [] (RemoveBucket 1) None)
+     [RNode (Exec 70 [] (RemoveBucket 2) None)
+        [RNode (Exec 70 [(0, 490)] (CreateBucket 4) None) []]]].
+
+Example C01_deep_reentry_hyps_met :
+  fresh wre /\ trees_ok (kind wre) (self_addr wre) txdeep /\
+  let w' := trun wre txdeep in
+  bank w' 50 0 = 490 /\ owed_native (market w') 0 = 490 /\ bank w' 70 0 = 10 /\
+  map fst (buckets (market w')) = [(70, 4)].
+Proof.
+  split.
+  { unfold fresh. split; [exists 100000000000; reflexivity|]. split; [reflexivity|]. split; [vm_compute; discriminate|].
+    split; [reflexivity|]. split; [intros d; reflexivity|]. split; [intros t; reflexivity|].
+    intros c k. discriminate. }
+  split.
+  { cbn [trees_ok tree_ok txdeep].
+    repeat match goal with
+           | |- _ /\ _ => split
+           | |- True => exact I
+           | |- outside_ok_at _ _ _ => apply (outside_ok_at_of wre); vm_compute; split; [discriminate | right; reflexivity]
            end. }
   cbv zeta. splits; vm_compute; reflexivity.
 Qed.
